@@ -2470,6 +2470,11 @@ impl World {
                     if !self.mature(&c, frac) {
                         return Err(format!("tx {ti}: immature cellbase input"));
                     }
+                    // absolute block-number time lock (the only kind pool-mode transactions carry)
+                    let sv: u64 = i.since().into();
+                    if sv != 0 && sv >> 56 == 0 && number < sv {
+                        return Err(format!("tx {ti}: immature time lock (block number)"));
+                    }
                     inc += c.capacity();
                     freed += c.occupied();
                 }
